@@ -6,6 +6,9 @@
 //	scope    sqlx.CheckChangesScope on generated change sets vs. the model + oracle
 //	plan     mysql.DefaultPlan / postgres.DefaultPlan end to end: identifier chains of every
 //	         Cmd and reverse statement vs. the reference skeleton + the property oracle
+//	lexq     the oracle's dialect lexer and the spellings of a qualified name vs. Qual/Lexq.v
+//	replay   migrate.Planner (PlanSchema / Plan / WritePlan) over a MemDir and an in-process
+//	         dev driver: plans made from a replayed history, property oracle
 package main
 
 import (
@@ -39,6 +42,10 @@ func main() {
 		runPlan(w, *tier, false)
 	case "skel":
 		runPlan(w, *tier, true)
+	case "replay":
+		runReplay(w, *tier)
+	case "lexq":
+		runLexq(w, *tier)
 	default:
 		fmt.Fprintln(os.Stderr, "unknown mode")
 		os.Exit(2)
